@@ -6,6 +6,8 @@ pub mod once;
 pub mod rt;
 #[cfg(feature = "pre")]
 pub mod pre;
+#[cfg(feature = "uring")]
+pub mod uring;
 pub mod sleepers;
 pub mod local;
 pub mod nio;
@@ -40,6 +42,8 @@ pub static ALL: &[Comp] = &[
     Comp { name: "join", gen: join::gen, exec: join::exec, isolate_ms: 15000 },
     Comp { name: "once", gen: once::gen, exec: once::exec, isolate_ms: 15000 },
     Comp { name: "rt", gen: rt::gen, exec: rt::exec, isolate_ms: 15000 },
+    #[cfg(feature = "uring")]
+    Comp { name: "uring", gen: uring::gen, exec: uring::exec, isolate_ms: 20000 },
     #[cfg(feature = "pre")]
     Comp { name: "pre", gen: pre::gen, exec: pre::exec, isolate_ms: 20000 },
     Comp { name: "sleepers", gen: sleepers::gen, exec: sleepers::exec, isolate_ms: 15000 },
